@@ -48,8 +48,11 @@ type Options struct {
 	Port0       bool              `json:"port0"`
 	ExitLagMs   int               `json:"exitLagMs"`
 	ExitLagGens int               `json:"exitLagGens,omitempty"` // the lag applies to the first generations only
-	FrontEnd    bool              `json:"frontEnd,omitempty"`    // invocations go through cmd/aws-lambda-rie's InvokeHandler (vhfe only)
-	OpWaitMs    int               `json:"opWaitMs"`              // bound for a single driver step (default 20 s)
+	// RecordRelease: the runtime of generation g identifies itself as "vrt-g<g>/1.0" (User-Agent) and the identity string
+	// carried by the results rapid hands to the server is recorded (events InvokeMsg)
+	RecordRelease bool `json:"recordRelease,omitempty"`
+	FrontEnd      bool `json:"frontEnd,omitempty"` // invocations go through cmd/aws-lambda-rie's InvokeHandler (vhfe only)
+	OpWaitMs      int  `json:"opWaitMs"`           // bound for a single driver step (default 20 s)
 }
 
 type Stack struct {
@@ -192,6 +195,9 @@ func New(opt Options) (*Stack, error) {
 		time.Sleep(time.Duration(5*(attempt+1)) * time.Millisecond)
 	}
 	srv := b.DefaultInteropServer()
+	if opt.RecordRelease {
+		sbCtx = &recSandbox{SandboxContext: sbCtx, r: r}
+	}
 	srv.SetSandboxContext(sbCtx)
 	// the server asks for the internal state when it builds a completion message (FastInvoke's goroutine, right before
 	// the send into InvokeDoneChan): a driver-side pause point there, without a hook in /repo
@@ -451,6 +457,9 @@ func (s *Stack) do(p *Proc, method, path string, hdr map[string]string, body []b
 			continue
 		}
 		req.Header.Set(k, v)
+	}
+	if s.Opt.RecordRelease && p != nil && p.Kind == "rt" {
+		req.Header.Set("User-Agent", fmt.Sprintf("vrt-g%d/1.0", p.Gen))
 	}
 	resp, err := s.HTTP.Do(req)
 	if err != nil {
@@ -971,4 +980,48 @@ func (s *Stack) idGen(p *Proc, who string) int {
 	s.mu.Lock()
 	defer s.mu.Unlock()
 	return s.intGen[strings.TrimPrefix(strings.TrimPrefix(who, "int:"), "ext:")]
+}
+
+// recSandbox records what rapid hands to the server as the result of an invocation (the server drops most of it): the
+// identity string of the runtime the result carries.
+type recSandbox struct {
+	interop.SandboxContext
+	r *rec.Recorder
+}
+
+func (x *recSandbox) Init(i *interop.Init, timeoutMs int64) interop.InitContext {
+	return &recInit{InitContext: x.SandboxContext.Init(i, timeoutMs), r: x.r}
+}
+
+type recInit struct {
+	interop.InitContext
+	r *rec.Recorder
+}
+
+func (x *recInit) Reserve() interop.InvokeContext {
+	return &recInvoke{InvokeContext: x.InitContext.Reserve(), r: x.r}
+}
+
+type recInvoke struct {
+	interop.InvokeContext
+	r  *rec.Recorder
+	id string
+}
+
+func (x *recInvoke) SendRequest(i *interop.Invoke, rs interop.InvokeResponseSender) {
+	x.id = i.ID
+	x.InvokeContext.SendRequest(i, rs)
+}
+
+func (x *recInvoke) Wait() (interop.InvokeSuccess, *interop.InvokeFailure) {
+	ok, fail := x.InvokeContext.Wait()
+	switch {
+	case fail == nil:
+		x.r.Emit("srv", "InvokeMsg", "reqid", x.id, "kind", "ok", "release", ok.RuntimeRelease)
+	case fail.ResetReceived:
+		x.r.Emit("srv", "InvokeMsg", "reqid", x.id, "kind", "rst", "release", fail.RuntimeRelease)
+	default:
+		x.r.Emit("srv", "InvokeMsg", "reqid", x.id, "kind", "fail", "release", fail.RuntimeRelease)
+	}
+	return ok, fail
 }
